@@ -64,6 +64,16 @@ CLAIMS = {
         design="6 C03",
         technique="explicit TLA+ spec + TLC model checking; TLC-generated histories replayed on the code and judged by TLC (trace validation)",
     ),
+    "C13": dict(
+        spec="FsTxn.tla / FsTxnGen.tla / FsTxnJudge.tla",
+        text="TLC model-checks the transaction specification (Atomic/NoTrace, Isolation = committed + own pending through every "
+        "cursor, sticky to the connection, no-op COMMIT/ROLLBACK with the status row, failing statements change nothing) over "
+        "two connections, explores all statement-level interleavings to a bounded depth, and replays transition cover, bounded "
+        "path cover and progress-biased walks on two real connections (INSERT and MERGE renderings, SQL and conn.commit()/"
+        "rollback() forms, long-lived and fresh cursors); every step is judged by TLC.",
+        design="6 C13",
+        technique="explicit TLA+ spec + TLC model checking of interleavings; TLC-generated schedules replayed on the code and judged by TLC",
+    ),
 }
 
 
